@@ -220,6 +220,8 @@ def tlc(module, cfg=None, workers=8, timeout=900, env=None, simulate=None, depth
 
 def harness(binary, args, timeout=1800, stdin=None, env=None):
     """Run the harness; it prints exactly one JSON document on stdout."""
+    env = dict(env or {})
+    env.setdefault("VERIF_SCRATCH", SCRATCH_BASE)
     p = run([binary] + args, timeout=timeout, stdin=stdin, env=env)
     if p.returncode != 0:
         raise ToolError("harness %s failed rc=%d\n%s" % (args[:2], p.returncode, p.stderr[-4000:]))
